@@ -144,6 +144,10 @@ func init() {
 				if w.Nodes[i].Kind == KProc && c.Tape.Choose(simrt.StGen, 4, 0) == 1 {
 					w.Nodes[i].GlueIn = true
 				}
+				// a word with per-cent signs on the command line (printf formats, 50%)
+				if n := &w.Nodes[i]; n.Kind == KProc && n.Custom == 0 && n.JoinMod == "" && c.Tape.Choose(simrt.StGen, 4, 0) == 1 {
+					n.Note = []string{"100%", "%s_%d", "rate=5%v"}[c.Tape.Choose(simrt.StGen, 3, 0)]
+				}
 			}
 			ex := Eval(w)
 			gran := []int64{0, 1e6, 15e6}[c.Tape.Choose(simrt.StGen, 3, 0)]
